@@ -307,12 +307,24 @@ func oracleC16(in map[string]any, r *gtfs.Realtime, canon map[string]any) ([]Vio
 			}
 		}
 	}
+	// a trip is found by trip id and route (the same trip id may run on two routes; the extension never rewrites either)
+	findTrip := func(d map[string]any) *gtfs.Trip {
+		if descKey(d) == "" {
+			return nil
+		}
+		for i := range r.Trips {
+			if tripKey(r.Trips[i].ID) == descKey(d) && r.Trips[i].ID.RouteID == gs(d, "routeId") {
+				return &r.Trips[i]
+			}
+		}
+		return nil
+	}
 	for _, e := range ents {
 		if tu := gm(e, "tripUpdate"); tu != nil {
 			d := gm(tu, "trip")
 			n := gm(d, "nyct")
 			id := gs(d, "tripId")
-			t := findRtTrip(r, id)
+			t := findTrip(d)
 			if n != nil {
 				tags["nyct-trip-update"] = true
 				stus := ga(tu, "stus")
@@ -378,7 +390,7 @@ func oracleC16(in map[string]any, r *gtfs.Realtime, canon map[string]any) ([]Vio
 			d := gm(vp, "trip")
 			if gm(d, "nyct") != nil {
 				tags["nyct-vehicle-position"] = true
-				if t := findRtTrip(r, descKey(d)); t != nil && !t.IsEntityInMessage {
+				if t := findTrip(d); t != nil && !t.IsEntityInMessage {
 					checkDesc("vehicle position for trip "+gs(d, "tripId"), d, t)
 				}
 			}
